@@ -2,7 +2,8 @@
 
 Real plumpy.Process subclasses are generated from a scenario (harness/scope_model.py): async step bodies await futures
 that the harness completes, launch children, call self.call_soon, execute() other processes re-entrantly; every body
-segment, lifecycle hook, listener callback and call_soon callback samples `Process.current()` and appends
+segment, lifecycle hook (the termination hooks on_terminated / on_close included), cleanup callback (add_cleanup), listener
+callback and call_soon callback samples `Process.current()` and appends
 [point, process id, sampled process id or 0] to the log - the same entries as S.log of the specification.
 
 Two drivers:
@@ -28,7 +29,9 @@ import warnings
 warnings.filterwarnings('ignore', category=RuntimeWarning, message='coroutine .* was never awaited')
 
 HOOKS = ['on_create', 'on_run', 'on_running', 'on_exit_running', 'on_exit_waiting', 'on_wait', 'on_waiting', 'on_finish',
-         'on_finished', 'on_kill', 'on_killed', 'on_except', 'on_excepted', 'on_pausing', 'on_paused', 'on_playing']
+         'on_finished', 'on_kill', 'on_killed', 'on_except', 'on_excepted', 'on_pausing', 'on_paused', 'on_playing',
+         'on_terminated', 'on_close']
+AFTER = {'on_terminated'}      # hooks sampled a second time (point '<hook>.1') after super() returned: the process was closed
 LISTENER = {'on_process_running': 'L_running', 'on_process_waiting': 'L_waiting', 'on_process_paused': 'L_paused',
             'on_process_played': 'L_played', 'on_process_finished': 'L_finished', 'on_process_excepted': 'L_excepted',
             'on_process_killed': 'L_killed'}
@@ -98,6 +101,12 @@ def build(scn, env):
         return acb if fut else cb
     env.mk_cb = mk_cb
 
+    def mk_cleanup(proc, vp):
+        """the next cleanup callback of `proc`: samples as cleanup<k>, k counting the registrations of that process"""
+        proc._vcl = k = getattr(proc, '_vcl', 0) + 1
+        gen = env.gen
+        return lambda: rec('cleanup%d' % k, vp, gen)
+
     def mk_step(vp, si, st):
         ops, end = st['ops'], st['end']
 
@@ -110,6 +119,8 @@ def build(scn, env):
                     self.launch(classes[o['arg']])
                 elif o['op'] == 'soon':
                     self.call_soon(mk_cb(vp, o['arg'] == 1, o.get('x', 0)))
+                elif o['op'] == 'addcl':
+                    self.add_cleanup(mk_cleanup(self, vp))
                 elif o['op'] == 'osoon':
                     env.procs[o['arg']].call_soon(mk_cb(o['arg'], False, o.get('x', 0)))
                 elif o['op'] == 'ofail':
@@ -139,11 +150,14 @@ def build(scn, env):
             ns['step%d' % si] = mk_step(vp, si, st)
         ns['run'] = ns['step1']
 
-        def mk_class(vp=vp, ns=ns):
+        def mk_class(vp=vp, ns=ns, ncl=P.get('cl', 0)):
             def mk_hook(name):
                 def override(self, *a, **k):
                     rec(name, vp, self._vgen)
-                    return getattr(super(klass, self), name)(*a, **k)
+                    ret = getattr(super(klass, self), name)(*a, **k)
+                    if name in AFTER:
+                        rec(name + '.1', vp, self._vgen)
+                    return ret
                 override.__name__ = name
                 return override
             for h in HOOKS:
@@ -155,6 +169,12 @@ def build(scn, env):
                 env.procs[vp] = self
                 self.add_process_listener(listener)
             ns['__init__'] = __init__
+
+            def init(self):                   # called by the metaclass after CREATED was entered
+                super(klass, self).init()
+                for _ in range(ncl):
+                    self.add_cleanup(mk_cleanup(self, vp))
+            ns['init'] = init
             klass = type('Scope%s_%d' % (scn['name'], vp), (plumpy.Process,), ns)
             return klass
         classes[vp] = mk_class()
@@ -169,6 +189,8 @@ def request(env, name, arg):
         env.procs[arg].kill()
     elif name == 'pause':
         env.procs[arg].pause()
+    elif name == 'close':
+        env.procs[arg].close()
     elif name == 'play':
         env.procs[arg].play()
     elif name == 'resume':
@@ -214,7 +236,7 @@ def expected_final(S):
             out.append(None)
             continue
         c = S['ctx'][T['c'] - 1]
-        out.append({'done': T['done'], 'exc': None, 'stack': (list(c['val']) if c['set'] else list(S['deflt'])) if T['done'] else None})
+        out.append({'done': T['done'], 'exc': None if T['exc'] == '-' or not T['done'] else T['exc'], 'stack': (list(c['val']) if c['set'] else list(S['deflt'])) if T['done'] else None})
     return out
 
 
